@@ -96,6 +96,10 @@ class TriangleSet(primitive.Primitive):
         self.index = index
         self.indices = self.index
         self.nindices = max_offset + 1
+        if self.index.size % (3 * self.nindices) != 0:
+            raise DaeMalformedError(
+                'Index of a triangle set with %d entries is not a multiple of 3 corners x %d inputs'
+                % (self.index.size, self.nindices))
         self.index.shape = (-1, 3, self.nindices)
         self.ntriangles = len(self.index)
         self.sources = sources
